@@ -23,7 +23,13 @@ pub enum BOp {
   OtherBuildersFail,
   /// `build` with a private key that cannot sign (public protocols; an ordinary build for local ones)
   BuildWithUnusableKey,
+  /// `set_claim` with a caller-defined claim (key: 0 "exp", 1 "iat", 2 a custom name) whose Serialize panics; the unwind is
+  /// caught and the builder used on. Later `set_claim`s of that key on the same builder are left out of the history (whether
+  /// the attempt counts as "supplied" is nobody's promise).
+  SetPanics(u8),
 }
+
+pub const PANIC_KEYS: [&str; 3] = ["exp", "iat", "claim-whose-serialize-panics"];
 
 impl BOp {
   pub fn short(&self) -> String {
@@ -35,6 +41,7 @@ impl BOp {
       BOp::Build => "build".into(),
       BOp::OtherBuildersFail => "other-builders-fail".into(),
       BOp::BuildWithUnusableKey => "build(unusable key)".into(),
+      BOp::SetPanics(k) => format!("set({}: Serialize panics, caught)", PANIC_KEYS[*k as usize % 3]),
     }
   }
 }
@@ -94,12 +101,28 @@ pub fn interpret(c: &HistCase) -> Run {
   let mut footer: [Option<&str>; 2] = [None, None];
   let mut assertion: [Option<&str>; 2] = [None, None];
   let mut nbuilds = [0usize, 0usize];
+  let mut poisoned: [std::collections::BTreeSet<&str>; 2] = [Default::default(), Default::default()];
   let mut run = Run { t0, t1, builds: vec![], readback_error: None };
   let mut tokens: Vec<String> = vec![];
   for (i, op) in c.ops.iter().enumerate() {
     let w = c.twin.get(i).copied().unwrap_or(false) as usize;
     let b = &mut builders[w];
     match op {
+      BOp::SetPanics(k) => {
+        let key = PANIC_KEYS[*k as usize % 3];
+        if supplied[w].contains_key(key) || poisoned[w].contains(key) {
+          continue; // the key was supplied before: left out (see BOp::SetPanics)
+        }
+        if key == "exp" && ack[w] {
+          exp_after_ack[w] = true;
+        }
+        let spec: &'static ClaimSpec = Box::leak(Box::new(ClaimSpec::Panicking(key.to_string())));
+        let _ = crate::engine::catch(|| {
+          let _ = b.set(spec);
+        });
+        poisoned[w].insert(key);
+      }
+      BOp::Set(spec) if poisoned[w].contains(spec.key()) => {}
       BOp::Set(spec) => {
         if b.set(spec).is_ok() {
           let e = supplied[w].entry(spec.key().to_string()).or_insert((0, Value::Null));
@@ -397,6 +420,7 @@ pub fn random_op() -> BoxedStrategy<BOp> {
     // a payload beyond 64 KiB
     1 => (0u32..3).prop_map(|i| BOp::Set(ClaimSpec::Custom("blob".into(), Value::String("b".repeat([65_536usize, 70_000, 200_000][i as usize]))))),
     3 => Just(BOp::Ack),
+    1 => (0u8..3).prop_map(BOp::SetPanics),
     1 => Just(BOp::OtherBuildersFail),
     1 => Just(BOp::BuildWithUnusableKey),
     // time claims supplied through a claim type of the caller's own (the PasetoClaim trait is public), with any JSON value
